@@ -56,6 +56,13 @@ def dynTrunc (hs : List Nat) : Nat :=
     hs.getD (o + 3) 0
   p % 2 ^ 31
 
+/-- The same truncation as RFC 4226 §5.4 writes it (the reference implementation's expression);
+`KanidmProofs.C29.hotp_eq_reference`: equal to `dynTrunc` on byte strings. -/
+def refTrunc (hs : List Nat) : Nat :=
+  let o := hs.getD (hs.length - 1) 0 &&& 0xf
+  ((hs.getD o 0 &&& 0x7f) <<< 24) ||| ((hs.getD (o + 1) 0 &&& 0xff) <<< 16) |||
+    ((hs.getD (o + 2) 0 &&& 0xff) <<< 8) ||| (hs.getD (o + 3) 0 &&& 0xff)
+
 /-- `HOTP(K, C) = Truncate(HMAC-H(K, C)) mod 10^Digit`. -/
 def hotp (a : Algo) (key : List Nat) (c : Nat) (digits : Nat) : Nat :=
   dynTrunc (hmac (hashAlg (stdHash a)) key (counter8 c)) % 10 ^ digits
